@@ -274,13 +274,13 @@ func RunC10(env *Env, rep *Report) {
 		}
 		cases = append(cases, c10Case([][]string{a, a}, true, ""))
 	}
-	cases = append(cases, c10PoryswitchCase(true), c10PoryswitchCase(false), c10PoryswitchCaseOrder(true, true), c10PoryswitchCaseOrder(false, true), c10SwitchBodyCase(),
+	cases = append(cases, c10PoryswitchCase(true), c10PoryswitchCase(false), c10PoryswitchCaseOrder(true, true), c10PoryswitchCaseOrder(false, true), c10SwitchBodyCase(), c10NumberFormsCase(),
 		c10UnreachableStretchCase("after-infinite-loop"), c10UnreachableStretchCase("after-leaving-ifelse"), c10UnreachableStretchCase("after-break-in-loop"))
 	rep.Technique = "symbolic execution of the real command parser and renderer (go/ssa) with symbolic token literals; rope equalities between output lines and the token-wise reference, aliasing with constant names decided by the solver (z3)"
 	rep.Explanation = "Bounded symbolic verification, not a proof. Every argument token list up to the length bound over {identifier, number, keyword, operator, '(', ')', ','} with balanced parentheses and non-empty arguments (plus the no-parenthesis form, empty parentheses, several commands in a row, the label look-alikes, every keyword spelling of the lexer as an argument token, and a stretch with 'end' / 'return' in the middle, whose later commands must still all be emitted) is compiled by symbolic execution of the real code with all identifier and number tokens symbolic. Each output line must equal, as a rope and hence for every name and number, the reference rendering: tab, the unchanged command name, the argument tokens in order joined by single spaces with ', ' at every comma; lines in source order. With a constant defined, whether an identifier token equals the constant's name is a solver-decided fork (every aliasing pattern is explored) and the reference substitutes the constant's value exactly there."
 	rep.Bounds = map[string]interface{}{"max_tokens_per_argument_list": maxTok, "token_lists": len(lists), "cases": len(cases), "const_aliasing": "lists of up to 3 tokens with one constant definition", "commands_in_a_row": "up to 3, lists of up to 2 tokens"}
 	rep.Outside = []string{"longer argument lists", "inline text / format() / moves() arguments (C06, C07)", "empty arguments (a leading, doubled or trailing comma)"}
-	rep.Assumptions = []string{"identifier tokens are identifiers other than keywords; command names are not control-flow instruction names", "numbers are canonical decimal integers (hex / negative forms appear as literals in other checks)"}
+	rep.Assumptions = []string{"identifier tokens are identifiers other than keywords; command names are not control-flow instruction names", "symbolic numbers are canonical decimal integers; hexadecimal (every digit, both cases) and negative spellings are covered by the concrete number-forms case"}
 	rep.Functions = []string{"parseStatement", "tryParseLabelStatement", "parseCommandStatement", "renderCommandStatement", "renderLabelStatement", "tryReplaceWithConstant", "parseConstant"}
 	rep.Match = func(k *KnownFinding, f *Finding) bool { return false }
 	src, _ := cases[len(cases)/3].Prog.Render()
@@ -409,6 +409,54 @@ func c10UnreachableStretchCase(kind string) *Case {
 				return &Violation{Sub: "verbatim", Msg: "variant " + v.Name + ": the stretch is cut short"}
 			}
 			if vv := expectLines(x, "verbatim", "variant "+v.Name+": the stretch after the construct (commands and label in source order, contiguous)", lines[at:at+len(stretch)], stretch); vv != nil {
+				return vv
+			}
+		}
+		return nil
+	}
+	return cs
+}
+
+// c10NumberFormsCase: number tokens in every spelling the lexer accepts -
+// decimal, negative, hexadecimal with every digit in upper and lower case -
+// reach the output unchanged (the command names are symbolic).
+func c10NumberFormsCase() *Case {
+	atoms := &AtomTable{Coded: true}
+	sname := atoms.New(ClsUserName, "script", "names")
+	forms := [][]string{
+		{"0", "7", "-5", "12345"},
+		{"0x0", "0x1F", "0x40f", "0xabcdef", "0xABCDEF", "0x9a8B7c6D5e4F", "0xf", "0xFf0"},
+		{"(", "0xdeadbeef", "+", "-1", ")", "*", "0x10"},
+	}
+	var body []Stmt
+	var cmds []*Atom
+	for _, f := range forms {
+		c := atoms.New(ClsPlainCmd, "cmd", "cmds")
+		cmds = append(cmds, c)
+		args := strings.Join(f, ", ")
+		if f[0] == "(" {
+			args = strings.Join(f, " ")
+		}
+		body = append(body, &RawStmt{Text: c.Placeholder() + "(" + args + ")"})
+	}
+	prog := &Program{Atoms: atoms, Tops: []interface{}{&Script{Name: sname, Body: body}}}
+	cs := &Case{Name: "c10/number-forms", Prog: prog, Variants: optVariants, NonTrivial: true, Shape: c10Shape{Cmds: []string{"number-forms"}}, MaxPaths: 16}
+	cs.Oracle = func(x *OracleCtx) *Violation {
+		want := []interp.Value{cat(sname.Val, "::")}
+		for i, f := range forms {
+			args := strings.Join(f, ", ")
+			if f[0] == "(" {
+				args = "( 0xdeadbeef + -1 ) * 0x10"
+			}
+			want = append(want, cat("\t", cmds[i].Val, " ", args))
+		}
+		want = append(want, "\treturn")
+		for _, v := range x.Case.Variants {
+			res := x.Res[v.Name]
+			if res.Err.IsErr || res.Err.Panic != "" {
+				return &Violation{Sub: "verbatim", Msg: "variant " + v.Name + " rejected: " + interp.ToString(res.Err.Msg) + res.Err.Panic}
+			}
+			if vv := expectLines(x, "verbatim", "variant "+v.Name+": number tokens", trimTrailingEmpty(outputLines(res.Out, false)), want); vv != nil {
 				return vv
 			}
 		}
